@@ -350,6 +350,10 @@ class Abs(Operator):
 
     def __init__(self, a):
         """Initialise."""
+        if hasattr(self, "ufl_operands"):
+            # __new__ returned an already initialised Abs (abs(abs(x)) -> abs(x)):
+            # Python still calls __init__ on it, do not re-initialise the operand
+            return
         Operator.__init__(self, (a,))
 
     def evaluate(self, x, mapping, component, index_values):
